@@ -1174,13 +1174,21 @@ package main
 
 //@ func (*SIPURI)._Write
 //@   props C16 C14
+//@   uses kvtext
 //@   modifies W
 //@   ensures only-this-writer: forall w int :: w != refOf(writer) ==> W[w] == old(W[w])
 //@   ensures bare: !withParams && !withHeaders && isType(writer, "*bytes.Buffer") ==> W[refOf(writer)] == old(W[refOf(writer)]) + sipBase(s)
+//@   ensures full-text: isType(writer, "*bytes.Buffer") ==> W[refOf(writer)] == old(W[refOf(writer)]) + sipBase(s)
+//@        + (withParams ? kvSeqText(";", s.Parameters, len(s.Parameters)) : "") + (withHeaders ? hdrSeqText(s.Headers, len(s.Headers)) : "")
 //@   loop 0:
 //@     invariant forall w int :: w != refOf(writer) ==> W[w] == old(W[w])
+//@     invariant 0 <= $i && $i <= len(s.Parameters)
+//@     invariant isType(writer, "*bytes.Buffer") ==> W[refOf(writer)] == old(W[refOf(writer)]) + sipBase(s) + kvSeqText(";", s.Parameters, $i)
 //@   loop 1:
 //@     invariant forall w int :: w != refOf(writer) ==> W[w] == old(W[w])
+//@     invariant 0 <= $i && $i <= len(s.Headers)
+//@     invariant isType(writer, "*bytes.Buffer") ==> W[refOf(writer)] == old(W[refOf(writer)]) + sipBase(s)
+//@        + (withParams ? kvSeqText(";", s.Parameters, len(s.Parameters)) : "") + hdrSeqText(s.Headers, $i)
 
 // ---- lifecycle / configuration facts assumed by the no-panic sweep (C08): fields set by the constructors
 // and Start() before any message is handled; assumed at loads in safety mode, listed as assumptions ----
